@@ -3,13 +3,13 @@ CONSTANTS
  Mode = "sage"
  D = 2
  NInner = 1
- Kind = "welford"
+ Kind = "es"
  Alpha <- A_1_2
- StoreKind = "geometric"
+ StoreKind = "interval"
  Cap = 2
- Strategy = "product"
+ Strategy = "default"
  NOver = 0
- ModelKind = "multi"
+ ModelKind = "scalar"
  CommitEarly = FALSE
  MaxCalls = 3
  MaxFaults = 1
